@@ -253,7 +253,25 @@ def run(F, rep, tier):
                 v = args[2]
                 while isinstance(v, tuple) and v and v[0] == "via":
                     v = v[2]
-                if isinstance(v, tuple) and v and v[0] == "call" and isinstance(v[1], str) and v[1].endswith("FeelType::coerced"):
+                def coerced_value(v, depth=0):
+                    while isinstance(v, tuple) and v and v[0] in ("via", "unwrap", "payload"):
+                        v = v[2] if v[0] != "payload" else v[2]
+                    if isinstance(v, tuple) and v and v[0] == "ctor" and str(v[1]).endswith(("Option::Some", "Result::Ok")) and len(v) > 2 and v[2]:
+                        return coerced_value(v[2][0], depth)
+                    if isinstance(v, tuple) and v and v[0] == "call" and isinstance(v[1], str) and v[1].endswith("FeelType::coerced"):
+                        return True
+                    if isinstance(v, tuple) and len(v) > 3 and v[0] == "call" and v[1] is None and isinstance(v[3], tuple) and v[3] and v[3][0] == "closure" and depth < 2:
+                        # the value is what a closure created in this body returns (`let evaluate = || -> Option<Value> { .. }; if let Some(v) = evaluate() ..`)
+                        inner = [c2 for c2, _ in find_hir(clo["body"], lambda x: x.get("k") == "Closure" and x.get("name") == v[3][1])]
+                        if len(inner) != 1:
+                            return False
+                        fl2 = hirflow.Flow({"params": inner[0].get("params", []), "body": inner[0]["body"]})
+                        rets = [d for d, _, _ in fl2.returns if d is not None and not (isinstance(d, tuple) and d and d[0] == "ctor" and str(d[1]).endswith(("Option::None", "Result::Err")))
+                                and not (isinstance(d, tuple) and d and d[0] in ("residual", "try-residual"))
+                                and not (isinstance(d, tuple) and d and d[0] == "call" and str(d[1]).endswith("FromResidual::from_residual"))]          # `?`: the None / Err of the operand
+                        return bool(rets) and all(coerced_value(d, depth + 1) for d in rets)
+                    return False
+                if coerced_value(v):
                     rep.ok(r3, key, "the value written to the output context is the result of coerced()")
                 else:
                     rep.violation(r3, key, "%s writes %s into the caller's output context at line %s without FeelType::coerced(<declared output type>): a result that does not conform to the "
